@@ -1,8 +1,10 @@
 #!/bin/bash
 # run every claimed check's quick tier sequentially; one summary line each
 cd "$(dirname "$0")/.."
+tmp=$(mktemp -d)
+trap 'rm -rf "$tmp"' EXIT
 for p in $(python3 -c "import json;print(' '.join(c['property_id'] for c in json.load(open('MANIFEST.json'))['checks']))") "$@"; do
-  /usr/bin/time -f "%e s" -o /tmp/allquick.time ./check $p ${TIER:+--tier $TIER} > /tmp/allquick.one 2>&1
+  /usr/bin/time -f "%e s" -o $tmp/time ./check $p ${TIER:+--tier $TIER} > $tmp/one 2>&1
   rc=$?
-  echo "$p rc=$rc $(cat /tmp/allquick.time | tail -1) | $(grep -c '^KNOWN-FINDING' /tmp/allquick.one) KF | $(grep -v '^  \|Trace\|resource_tracker\|KNOWN-FINDING' /tmp/allquick.one | tail -1 | cut -c1-150)"
+  echo "$p rc=$rc $(tail -1 $tmp/time) | $(grep -c '^KNOWN-FINDING' $tmp/one) KF | $(grep -v '^  \|Trace\|resource_tracker\|KNOWN-FINDING' $tmp/one | tail -1 | cut -c1-150)"
 done
